@@ -71,12 +71,13 @@ _memo = {}
 # the code) is executed against the real crates; only an input that reproduces is reported.
 PROBES = [
     (re.compile(r"^serdecap::"), "cbor-bytes", ["9b8000000000000000", "9b0000010000000000", "9a7fffffff"]),
-    (re.compile(r"^rpid::.*(label-boundary|web|android)"), "rpid-web",
+    (re.compile(r"^rpid::.*#(label-boundary|web|android)"), "rpid-web",
      ["https://evilexample.com|example.com|0", "https://evillocalhost|localhost|1", "https://aexample.co.uk|example.co.uk|0",
       "https://example.com.evil.org|example.com|0", "https://xexample.com:8443/path|example.com|0"]),
     (re.compile(r"^rpid::.*(registrable|accepted|valid|safety|ascii-form|ascii-input)"), "rpid-web",
      ["https://foo.xn--55qx5d.cn|xn--55qx5d.cn|0", "https://a.co.uk|co.uk|0", "https://com|-|0", "https://a.xn--p1ai|xn--p1ai|0",
-      "http://www.example.com|example.com|0", "https://localhost|-|0", "http://localhost|localhost|0"]),
+      "http://www.example.com|example.com|0", "https://localhost|-|0", "http://localhost|localhost|0",
+      "http://sub.localhost:8080|localhost|1", "https://sub.localhost|localhost|1", "http://localhost:8080|localhost|1"]),
     (re.compile(r"^rpid::.*(effective-id|localhost)"), "rpid-web",
      ["https://www.example.com|example.com|0", "https://localhost|-|0", "https://localhost|localhost|0", "https://sub.localhost|localhost|1"]),
     (re.compile(r"^hid::.*(safety|table-wf|rest-bound|init-rest-bound|wf-after|err-keeps)"), "hid-packets",
